@@ -38,7 +38,13 @@ use crate::{
 };
 use serde::{Deserialize, Serialize};
 use std::hash::Hash;
+#[cfg(not(sentinel_verif))]
 use std::sync::{
+    atomic::{AtomicU64, Ordering},
+    Arc, Mutex,
+};
+#[cfg(sentinel_verif)]
+use sentinel_verif_rt::sync::{
     atomic::{AtomicU64, Ordering},
     Arc, Mutex,
 };
